@@ -47,6 +47,7 @@ type Explorer struct {
 	MaxPaths   int
 	Deadline   time.Duration
 	KeepTranscripts int
+	StartDecisions []uint64
 }
 
 func (x *Explorer) Run(entry *ssa.Function) *ExploreStats {
@@ -56,6 +57,9 @@ func (x *Explorer) Run(entry *ssa.Function) *ExploreStats {
 	var mu sync.Mutex
 	cond := sync.NewCond(&mu)
 	queue := []WorkItem{{}}
+	if x.StartDecisions != nil {
+		queue = []WorkItem{{Dec: x.StartDecisions}}
+	}
 	busy := 0
 	stop := false
 	truncated := false
